@@ -774,11 +774,12 @@ Handler::ArgResult
       handleIdentifiedArg( p_arg_hdl, key);
 
       auto  subArgHandler = static_cast< detail::TypedArgSubGroup*>( p_arg_hdl)->obj();
-      ++ai;
 
       // we may only advance the main iterator if the argument is (still)
-      // handled by the sub-argument
+      // handled by the sub-argument: the main iterator stays on the last
+      // element that was handled, the caller steps over it
       auto  subAI( ai);
+      ++subAI;
       while ((subAI != end)
              && (subArgHandler->evalSingleArgument( subAI, end) == ArgResult::consumed))
       {
